@@ -1180,11 +1180,14 @@ nni_ctx_rele(nni_ctx *ctx)
 	// tries to avoid ID reuse.
 	nni_id_remove(&ctx_ids, ctx->c_id);
 	nni_list_remove(&sock->s_ctxs, ctx);
-	nni_cv_wake(&sock->s_close_cv);
-	nni_mtx_unlock(&sock_lk);
 	NNI_VERIF_DELAY(15, ctx);
 
+	// The context is finalized before the socket's closer is woken
+	// (and under the same lock, as sock_shutdown does): once s_ctxs is
+	// empty the socket, which ctx_fini still uses, may be destroyed.
 	nni_ctx_destroy(ctx);
+	nni_cv_wake(&sock->s_close_cv);
+	nni_mtx_unlock(&sock_lk);
 }
 
 int
